@@ -1,1 +1,1561 @@
-fn main() {}
+//! C01 — Commands behave as Redis: every reply and the keyspace match the Redis model.
+//!
+//! Checks (DESIGN.md §3 C01, §2.2, Appendix A):
+//!   exec_seq    generated command sequences interleaved with clock steps on one
+//!               `CommandExecutor` driven as the shard actor drives it (`set_time(t)` then
+//!               `execute(cmd)`, clock ticks optionally as `evict_expired_direct(t)`), argv pushed
+//!               through the production parser. After EVERY step: reply vs expectation of the
+//!               reference model (src/model.rs), then the whole visible keyspace (KEYS, TYPE, full
+//!               value read, PTTL, EXISTS, DBSIZE) vs the model at the current instant.
+//!   shard_seq   the same on a 1-shard `ShardedActorState<VerifTime>`, with
+//!               fast_get/fast_set/pooled_*/fast_batch_*_pipeline as alternative spellings of
+//!               GET/SET and `evict_expired_all_shards` as the TTL-manager tick.
+//!   At the end of every case: deadline sweep (every pending deadline d: visible at d-1, absent
+//!   at d) and a full SCAN walk. SCAN/HSCAN/ZSCAN are never compared page by page: a full cursor
+//!   walk must terminate, return every element at least once and nothing that does not exist.
+
+mod model;
+
+use model::{Entry, Expect, Model, ScanItem, ScanKind, ScanSpec, Val};
+use proptest::prelude::*;
+use redis_sim::production::{ShardConfig, ShardedActorState};
+use redis_sim::redis::CommandExecutor;
+use redis_sim::simulator::VirtualTime;
+use serde::{Deserialize, Serialize};
+use serde_json::json;
+use std::collections::{BTreeMap, BTreeSet, VecDeque};
+use vcore::dump::{Dump, KeyDump};
+use vcore::gen::{self, GenOpts};
+use vcore::resp::{parse_zc, show_argv, Argv, Reply};
+use vcore::time::VerifTime;
+use vcore::{CaseCtx, Level, Session};
+
+type Bytes = Vec<u8>;
+
+// ---- known findings (one id per root cause); see /verif/known_findings.d/C01.json
+const KF_GETSET_TTL: &str = "KF-C01-01";
+const KF_MSET_TTL: &str = "KF-C01-02";
+const KF_TTL_ROUND: &str = "KF-C01-03";
+const KF_ZADD_XX_EMPTY: &str = "KF-C01-04";
+const KF_INT_NONCANON: &str = "KF-C01-05";
+const KF_EXPIRE_FLAGS: &str = "KF-C01-06";
+const KF_SETRANGE_EMPTY: &str = "KF-C01-07";
+const KF_ZADD_FLAGS: &str = "KF-C01-08";
+const KF_EXPIRE_OVERFLOW: &str = "KF-C01-09";
+const KF_LMOVE_DST: &str = "KF-C01-10";
+const KF_LOSSY_NAMES: &str = "KF-C01-11";
+const KF_HSCAN_LOSSY: &str = "KF-C01-12";
+const KF_SHARD_SCAN: &str = "KF-C01-13";
+const KF_FAST_STALE: &str = "KF-C01-14";
+const KF_ZSET_EPS: &str = "KF-C01-15";
+const KF_NAN_BOUND: &str = "KF-C01-16";
+const KF_GETRANGE_NEG: &str = "KF-C01-17";
+
+// =====================================================================================
+// cases
+// =====================================================================================
+
+#[derive(Clone, Debug, Serialize, Deserialize)]
+enum ClockStep {
+    Zero,
+    Ms(u16),
+    /// aim at a pending deadline of the model: index into the sorted deadlines, delta -1/0/+1
+    Aim(u16, i8),
+    Secs(u8),
+    Hours(u8),
+}
+
+#[derive(Clone, Debug, Serialize, Deserialize)]
+enum Step {
+    Cmd(Argv),
+    /// the clock moves; the next command carries the new time (set_time)
+    Clock(ClockStep),
+    /// the clock moves and the TTL manager ticks (evict_expired_direct / evict_expired_all_shards)
+    Tick(ClockStep),
+    // ---- only produced for the sharded entry mode
+    FastGet(Bytes),
+    FastSet(Bytes, Bytes),
+    PooledGet(Bytes),
+    PooledSet(Bytes, Bytes),
+    BatchGet(Vec<Bytes>),
+    BatchSet(Vec<(Bytes, Bytes)>),
+}
+
+#[derive(Clone, Debug, Serialize, Deserialize)]
+struct SeqCase {
+    t0: u16,
+    steps: Vec<Step>,
+}
+
+fn clock_step() -> BoxedStrategy<ClockStep> {
+    prop_oneof![
+        1 => Just(ClockStep::Zero),
+        3 => (1u16..3).prop_map(ClockStep::Ms),
+        2 => (1u16..3000).prop_map(ClockStep::Ms),
+        6 => (any::<u16>(), -1i8..2).prop_map(|(w, d)| ClockStep::Aim(w, d)),
+        3 => (1u8..30).prop_map(ClockStep::Secs),
+        1 => (1u8..5).prop_map(ClockStep::Hours),
+    ]
+    .boxed()
+}
+
+fn exec_step(o: &GenOpts) -> BoxedStrategy<Step> {
+    prop_oneof![
+        12 => gen::data_command(o).prop_map(Step::Cmd),
+        2 => clock_step().prop_map(Step::Clock),
+        1 => clock_step().prop_map(Step::Tick),
+    ]
+    .boxed()
+}
+
+fn shard_step(o: &GenOpts) -> BoxedStrategy<Step> {
+    let k = || gen::key(o);
+    prop_oneof![
+        14 => gen::data_command(o).prop_map(Step::Cmd),
+        3 => clock_step().prop_map(Step::Clock),
+        1 => clock_step().prop_map(Step::Tick),
+        2 => k().prop_map(Step::FastGet),
+        2 => (k(), gen::value()).prop_map(|(k, v)| Step::FastSet(k, v)),
+        2 => k().prop_map(Step::PooledGet),
+        2 => (k(), gen::value()).prop_map(|(k, v)| Step::PooledSet(k, v)),
+        1 => proptest::collection::vec(k(), 1..4).prop_map(Step::BatchGet),
+        1 => proptest::collection::vec((k(), gen::value()), 1..4).prop_map(Step::BatchSet),
+    ]
+    .boxed()
+}
+
+fn seq_case(step: impl Fn(&GenOpts) -> BoxedStrategy<Step>, binary: bool, max_len: usize, long: bool) -> BoxedStrategy<SeqCase> {
+    let small = GenOpts { key_pool: 4, binary_names: binary, ..GenOpts::default() };
+    let wide = GenOpts { key_pool: 10, binary_names: binary, ..GenOpts::default() };
+    let mk = |o: &GenOpts, lo: usize, hi: usize| {
+        (1u16..2000, proptest::collection::vec(step(o), lo..=hi)).prop_map(|(t0, steps)| SeqCase { t0, steps })
+    };
+    if long {
+        prop_oneof![
+            4 => mk(&small, 1, 60),
+            4 => mk(&wide, 1, 60),
+            1 => mk(&small, 61, max_len),
+            1 => mk(&wide, 61, max_len),
+        ]
+        .boxed()
+    } else {
+        prop_oneof![mk(&small, 1, max_len), mk(&wide, 1, max_len)].boxed()
+    }
+}
+
+// =====================================================================================
+// systems under test
+// =====================================================================================
+
+#[derive(Clone, Copy, PartialEq, Eq, Debug)]
+enum Mode {
+    Exec,
+    Shard,
+}
+
+trait Sut {
+    fn mode(&self) -> Mode;
+    /// generic command at time `now` (set_time + execute)
+    fn exec(&mut self, argv: &Argv, now: u64) -> Reply;
+    /// TTL manager tick at time `now`
+    fn tick(&mut self, now: u64);
+    /// passive clock move (only the sharded mode has a clock of its own)
+    fn set_clock(&mut self, _now: u64) {}
+    fn fast(&mut self, _step: &Step) -> Vec<Reply> {
+        unreachable!("fast paths exist only in the sharded mode")
+    }
+}
+
+struct ExecSut {
+    ex: CommandExecutor,
+}
+
+impl Sut for ExecSut {
+    fn mode(&self) -> Mode {
+        Mode::Exec
+    }
+    fn exec(&mut self, argv: &Argv, now: u64) -> Reply {
+        // exactly what ShardActor::run does for ShardMessage::Command
+        self.ex.set_time(VirtualTime::from_millis(now));
+        match parse_zc(argv) {
+            Ok(cmd) => Reply::from_resp(&self.ex.execute(&cmd)),
+            Err(e) => Reply::Error(e.into_bytes()),
+        }
+    }
+    fn tick(&mut self, now: u64) {
+        // ShardMessage::EvictExpired
+        self.ex.evict_expired_direct(VirtualTime::from_millis(now));
+    }
+}
+
+struct ShardSut {
+    rt: tokio::runtime::Runtime,
+    state: Option<ShardedActorState<VerifTime>>,
+    time: VerifTime,
+}
+
+impl ShardSut {
+    fn new(t0: u64) -> ShardSut {
+        let rt = tokio::runtime::Builder::new_current_thread().enable_all().build().expect("runtime");
+        // the state is created at harness time 0 so that its epoch base is 0 and absolute
+        // times (EXAT/PXAT/EXPIREAT/PEXPIRETIME) are plain harness milliseconds
+        let time = VerifTime::new(0);
+        let state = {
+            let _g = rt.enter();
+            ShardedActorState::with_config_and_time_source(ShardConfig::with_shards(1), time.clone())
+        };
+        time.set(t0);
+        ShardSut { rt, state: Some(state), time }
+    }
+    fn st(&self) -> &ShardedActorState<VerifTime> {
+        self.state.as_ref().unwrap()
+    }
+}
+
+impl Drop for ShardSut {
+    fn drop(&mut self) {
+        self.state.take();
+    }
+}
+
+fn bb(b: &[u8]) -> bytes::Bytes {
+    bytes::Bytes::copy_from_slice(b)
+}
+
+impl Sut for ShardSut {
+    fn mode(&self) -> Mode {
+        Mode::Shard
+    }
+    fn exec(&mut self, argv: &Argv, now: u64) -> Reply {
+        self.time.set(now);
+        match parse_zc(argv) {
+            Ok(cmd) => Reply::from_resp(&self.rt.block_on(self.st().execute(&cmd))),
+            Err(e) => Reply::Error(e.into_bytes()),
+        }
+    }
+    fn tick(&mut self, now: u64) {
+        self.time.set(now);
+        self.rt.block_on(self.st().evict_expired_all_shards());
+    }
+    fn set_clock(&mut self, now: u64) {
+        self.time.set(now);
+    }
+    fn fast(&mut self, step: &Step) -> Vec<Reply> {
+        let st = self.st();
+        match step {
+            Step::FastGet(k) => vec![Reply::from_resp(&self.rt.block_on(st.fast_get(bb(k))))],
+            Step::PooledGet(k) => vec![Reply::from_resp(&self.rt.block_on(st.pooled_fast_get(bb(k))))],
+            Step::FastSet(k, v) => vec![Reply::from_resp(&self.rt.block_on(st.fast_set(bb(k), bb(v))))],
+            Step::PooledSet(k, v) => vec![Reply::from_resp(&self.rt.block_on(st.pooled_fast_set(bb(k), bb(v))))],
+            Step::BatchGet(ks) => self
+                .rt
+                .block_on(st.fast_batch_get_pipeline(ks.iter().map(|k| bb(k)).collect()))
+                .iter()
+                .map(Reply::from_resp)
+                .collect(),
+            Step::BatchSet(kvs) => self
+                .rt
+                .block_on(st.fast_batch_set_pipeline(kvs.iter().map(|(k, v)| (bb(k), bb(v))).collect()))
+                .iter()
+                .map(Reply::from_resp)
+                .collect(),
+            _ => unreachable!(),
+        }
+    }
+}
+
+// =====================================================================================
+// reply comparison
+// =====================================================================================
+
+enum Cmp {
+    Ok,
+    Abstain,
+    Mismatch(String),
+}
+
+fn show_expect(e: &Expect) -> String {
+    match e {
+        Expect::Exact(r) => r.show(),
+        Expect::Unordered(v) => format!("(any order) {}", Reply::Array(v.clone()).sorted().show()),
+        Expect::Pairs(p) => format!(
+            "(pairs, any order) [{}]",
+            p.iter().map(|(a, b)| format!("{}={}", a.show(), b.show())).collect::<Vec<_>>().join(", ")
+        ),
+        Expect::Err { code, text, rule } => format!("error {} {:?} (rule {})", code, text.unwrap_or("<text not asserted>"), rule),
+        Expect::AnyError { rule } => format!("an error reply (rule {})", rule),
+        Expect::Score(s) => format!("float {}", s),
+        Expect::Scored(v) => format!(
+            "[{}]",
+            v.iter().map(|(m, s)| format!("\"{}\", {}", vcore::show(m), s)).collect::<Vec<_>>().join(", ")
+        ),
+        Expect::IntOneOf(v) => format!("one of {:?}", v),
+        Expect::Judged(r) => format!("{:?}", r),
+        Expect::Scan(_) => "(scan walk)".into(),
+        Expect::Unspecified { why, .. } => format!("(unspecified: {})", why),
+    }
+}
+
+fn compare_reply(exp: &Expect, got: &Reply) -> Cmp {
+    let mis = |e: &Expect| Cmp::Mismatch(format!("expected {} — got {}", show_expect(e), got.show()));
+    match exp {
+        Expect::Exact(r) => {
+            if r == got {
+                Cmp::Ok
+            } else {
+                mis(exp)
+            }
+        }
+        Expect::Unordered(v) => match got {
+            Reply::Array(_) if Reply::Array(v.clone()).sorted() == got.sorted() => Cmp::Ok,
+            _ => mis(exp),
+        },
+        Expect::Pairs(p) => match got {
+            Reply::Array(a) if a.len() == p.len() * 2 => {
+                let want = Reply::Array(p.iter().flat_map(|(a, b)| [a.clone(), b.clone()]).collect()).sorted_pairs();
+                if want == got.sorted_pairs() {
+                    Cmp::Ok
+                } else {
+                    mis(exp)
+                }
+            }
+            _ => mis(exp),
+        },
+        Expect::Err { code, text, .. } => match got {
+            Reply::Error(_) => {
+                if got.error_code().as_deref() != Some(*code) {
+                    return mis(exp);
+                }
+                match text {
+                    Some(t) if got.error_text().as_deref() != Some(*t) => mis(exp),
+                    _ => Cmp::Ok,
+                }
+            }
+            _ => mis(exp),
+        },
+        Expect::AnyError { .. } => {
+            if got.is_error() {
+                Cmp::Ok
+            } else {
+                mis(exp)
+            }
+        }
+        Expect::Score(s) => match got {
+            Reply::Bulk(t) if model::score_text_ok(t, *s) => Cmp::Ok,
+            _ => mis(exp),
+        },
+        Expect::Scored(v) => match got {
+            Reply::Array(a) if a.len() == v.len() * 2 => {
+                for (i, (m, s)) in v.iter().enumerate() {
+                    let okm = matches!(&a[2 * i], Reply::Bulk(b) if b == m);
+                    let oks = matches!(&a[2 * i + 1], Reply::Bulk(t) if model::score_text_ok(t, *s));
+                    if !okm || !oks {
+                        return mis(exp);
+                    }
+                }
+                Cmp::Ok
+            }
+            _ => mis(exp),
+        },
+        Expect::IntOneOf(v) => match got {
+            Reply::Int(i) if v.contains(i) => Cmp::Ok,
+            _ => mis(exp),
+        },
+        Expect::Judged(Ok(())) => Cmp::Ok,
+        Expect::Judged(Err(m)) => Cmp::Mismatch(m.clone()),
+        Expect::Scan(_) => Cmp::Ok, // handled by the walk
+        Expect::Unspecified { .. } => Cmp::Abstain,
+    }
+}
+
+// =====================================================================================
+// keyspace observation and comparison
+// =====================================================================================
+
+struct Observed {
+    dump: Dump,
+    dbsize: Reply,
+    exists: BTreeMap<Bytes, Reply>,
+}
+
+fn observe<S: Sut>(sut: &mut S, now: u64, extra: &[Bytes]) -> Observed {
+    let cell = std::cell::RefCell::new(sut);
+    let dump = futures::executor::block_on(vcore::dump::dump_async(
+        |a| {
+            let r = cell.borrow_mut().exec(&a, now);
+            std::future::ready(r)
+        },
+        extra,
+    ));
+    let sut = cell.into_inner();
+    let dbsize = sut.exec(&vec![b"DBSIZE".to_vec()], now);
+    let mut keys: BTreeSet<Bytes> = dump.keys().cloned().collect();
+    keys.extend(extra.iter().cloned());
+    let mut exists = BTreeMap::new();
+    for k in keys {
+        let r = sut.exec(&vec![b"EXISTS".to_vec(), k.clone()], now);
+        exists.insert(k, r);
+    }
+    Observed { dump, dbsize, exists }
+}
+
+fn show_entry(e: &Entry, now: i64) -> String {
+    let v = match &e.val {
+        Val::Str(s) => format!("\"{}\"", vcore::show(s)),
+        Val::List(l) => format!("[{}]", l.iter().map(|x| format!("\"{}\"", vcore::show(x))).collect::<Vec<_>>().join(", ")),
+        Val::Set(s) => format!("{{{}}}", s.iter().map(|x| format!("\"{}\"", vcore::show(x))).collect::<Vec<_>>().join(", ")),
+        Val::Hash(h) => format!(
+            "{{{}}}",
+            h.iter().map(|(f, v)| format!("\"{}\": \"{}\"", vcore::show(f), vcore::show(v))).collect::<Vec<_>>().join(", ")
+        ),
+        Val::ZSet(z) => format!(
+            "[{}]",
+            Model::zsorted(z).iter().map(|(m, s)| format!("\"{}\": {}", vcore::show(m), s)).collect::<Vec<_>>().join(", ")
+        ),
+    };
+    format!("[{}] pttl={} {}", e.val.type_name(), e.deadline.map_or(-1, |d| d - now), v)
+}
+
+fn show_kd(kd: &KeyDump) -> String {
+    format!("[{}] pttl={} {}", kd.ty, kd.pttl, kd.value.show())
+}
+
+#[derive(Debug, Clone, PartialEq)]
+enum DiffKind {
+    /// the implementation shows a key the model does not have
+    Extra,
+    /// the model has a key the implementation does not show
+    Missing,
+    Type,
+    Value,
+    Ttl,
+}
+
+struct Diff {
+    key: Bytes,
+    kind: DiffKind,
+    text: String,
+}
+
+fn value_matches(val: &Val, kd: &KeyDump) -> bool {
+    match val {
+        Val::Str(s) => kd.value == Reply::Bulk(s.clone()),
+        Val::List(l) => kd.value == Reply::Array(l.iter().map(|x| Reply::Bulk(x.clone())).collect()),
+        Val::Set(s) => kd.value == Reply::Array(s.iter().map(|x| Reply::Bulk(x.clone())).collect()),
+        Val::Hash(h) => kd.value == Reply::Array(h.iter().flat_map(|(f, v)| [Reply::Bulk(f.clone()), Reply::Bulk(v.clone())]).collect()),
+        Val::ZSet(z) => {
+            let want = Model::zsorted(z);
+            match &kd.value {
+                Reply::Array(a) if a.len() == want.len() * 2 => want.iter().enumerate().all(|(i, (m, s))| {
+                    matches!(&a[2 * i], Reply::Bulk(b) if b == m) && matches!(&a[2 * i + 1], Reply::Bulk(t) if model::score_text_ok(t, *s))
+                }),
+                _ => false,
+            }
+        }
+    }
+}
+
+fn compare_keyspace(m: &Model, o: &Observed) -> Vec<Diff> {
+    let now = m.now;
+    let mut diffs = Vec::new();
+    let mut keys: BTreeSet<Bytes> = m.db.keys().cloned().collect();
+    keys.extend(o.dump.keys().cloned());
+    for k in keys {
+        let ks = vcore::show(&k);
+        match (m.db.get(&k), o.dump.get(&k)) {
+            (None, Some(kd)) => diffs.push(Diff {
+                key: k.clone(),
+                kind: DiffKind::Extra,
+                text: format!("key \"{}\": model: absent — implementation: {}", ks, show_kd(kd)),
+            }),
+            (Some(e), None) => diffs.push(Diff {
+                key: k.clone(),
+                kind: DiffKind::Missing,
+                text: format!("key \"{}\": model: {} — implementation: absent (TYPE none)", ks, show_entry(e, now)),
+            }),
+            (Some(e), Some(kd)) => {
+                let kind = if kd.ty != e.val.type_name() {
+                    Some(DiffKind::Type)
+                } else if !value_matches(&e.val, kd) {
+                    Some(DiffKind::Value)
+                } else if kd.pttl != e.deadline.map_or(-1, |d| d - now) {
+                    Some(DiffKind::Ttl)
+                } else {
+                    None
+                };
+                if let Some(kind) = kind {
+                    diffs.push(Diff {
+                        key: k.clone(),
+                        kind,
+                        text: format!("key \"{}\": model: {} — implementation: {}", ks, show_entry(e, now), show_kd(kd)),
+                    });
+                }
+            }
+            (None, None) => {}
+        }
+    }
+    diffs
+}
+
+/// Emptiness rule and agreement of EXISTS / DBSIZE with what TYPE shows (independent of the model).
+fn self_consistency(o: &Observed) -> Result<(), String> {
+    for (k, kd) in &o.dump {
+        if kd.ty != "string" {
+            if let Reply::Array(a) = &kd.value {
+                if a.is_empty() {
+                    return Err(format!("emptiness rule: key \"{}\" of type {} is visible with zero elements", vcore::show(k), kd.ty));
+                }
+            }
+        }
+    }
+    for (k, r) in &o.exists {
+        let want = if o.dump.contains_key(k) { 1 } else { 0 };
+        if *r != Reply::Int(want) {
+            return Err(format!(
+                "EXISTS \"{}\" = {} but TYPE says the key is {}",
+                vcore::show(k),
+                r.show(),
+                if want == 1 { "present" } else { "absent" }
+            ));
+        }
+    }
+    if o.dbsize != Reply::Int(o.dump.len() as i64) {
+        return Err(format!("DBSIZE = {} but {} keys are visible through KEYS/TYPE", o.dbsize.show(), o.dump.len()));
+    }
+    Ok(())
+}
+
+// =====================================================================================
+// the checker
+// =====================================================================================
+
+const OPTION_WORDS: &[&str] = &[
+    "NX", "XX", "GT", "LT", "CH", "GET", "EX", "PX", "EXAT", "PXAT", "KEEPTTL", "PERSIST", "WITHSCORES", "LIMIT", "MATCH",
+    "COUNT", "LEFT", "RIGHT",
+];
+
+fn is_write(name: &str) -> bool {
+    !matches!(
+        name,
+        "GET" | "STRLEN" | "MGET" | "GETRANGE" | "GETBIT" | "EXISTS" | "TYPE" | "DBSIZE" | "KEYS" | "RANDOMKEY" | "TTL"
+            | "PTTL" | "EXPIRETIME" | "PEXPIRETIME" | "LLEN" | "LINDEX" | "LRANGE" | "SMEMBERS" | "SISMEMBER" | "SCARD"
+            | "HGET" | "HGETALL" | "HKEYS" | "HVALS" | "HLEN" | "HEXISTS" | "ZRANGE" | "ZREVRANGE" | "ZSCORE" | "ZRANK"
+            | "ZCARD" | "ZCOUNT" | "ZRANGEBYSCORE" | "SCAN" | "HSCAN" | "ZSCAN"
+    )
+}
+
+/// Strings Rust's `i64::from_str` accepts (the implementation's notion of "integer")
+fn rust_int(b: &[u8]) -> Option<i64> {
+    std::str::from_utf8(b).ok()?.parse::<i64>().ok()
+}
+
+enum Resync {
+    Nothing,
+    /// adopt these keys from the implementation's visible state
+    Adopt(Vec<Bytes>),
+    /// DEL on the implementation, remove from the model
+    DeleteBoth(Vec<Bytes>),
+    ModelStr(Bytes, Bytes),
+    ModelField(Bytes, Bytes, Bytes),
+    ModelRemove(Bytes),
+}
+
+struct Checker<'a, 'c, S: Sut> {
+    sut: S,
+    model: Model,
+    now: i64,
+    ctx: &'a mut CaseCtx<'c>,
+    /// sharded mode: the clock moved and no generic command / tick has reached the shard since
+    stale: bool,
+    // classification
+    writes: u32,
+    fam_by_key: BTreeMap<Bytes, BTreeSet<&'static str>>,
+    crossed: bool,
+    kinds: BTreeSet<String>,
+    transitions: BTreeSet<(String, String)>,
+    trace: VecDeque<String>,
+}
+
+impl<'a, 'c, S: Sut> Checker<'a, 'c, S> {
+    fn new(sut: S, t0: i64, ctx: &'a mut CaseCtx<'c>) -> Self {
+        Checker {
+            sut,
+            model: Model::new(t0),
+            now: t0,
+            ctx,
+            stale: false,
+            writes: 0,
+            fam_by_key: BTreeMap::new(),
+            crossed: false,
+            kinds: BTreeSet::new(),
+            transitions: BTreeSet::new(),
+            trace: VecDeque::new(),
+        }
+    }
+
+    fn note(&mut self, line: String) {
+        if self.trace.len() >= 12 {
+            self.trace.pop_front();
+        }
+        self.trace.push_back(line);
+    }
+
+    fn fail(&self, what: String) -> String {
+        let mut s = format!("{} mode, t={} ms: {}\n  last steps:\n", if self.sut.mode() == Mode::Exec { "executor" } else { "sharded" }, self.now, what);
+        for l in &self.trace {
+            s.push_str("    ");
+            s.push_str(l);
+            s.push('\n');
+        }
+        s
+    }
+
+    /// known-finding gate: tolerated -> Ok(true); otherwise an Err carrying the id
+    fn gate(&mut self, id: &'static str, what: &str) -> Result<(), String> {
+        if self.ctx.tolerate(id) {
+            Ok(())
+        } else {
+            Err(self.fail(format!("[{}] {}", id, what)))
+        }
+    }
+
+    fn classify(&mut self, argv: &Argv, got: &Reply) {
+        let name = gen::cmd_name(argv);
+        let fam = gen::family(&name);
+        self.ctx.label(&format!("fam:{}", fam));
+        let mut kind = name.clone();
+        for a in &argv[1..] {
+            let u = String::from_utf8_lossy(a).to_ascii_uppercase();
+            if OPTION_WORDS.contains(&u.as_str()) {
+                kind.push(' ');
+                kind.push_str(&u);
+            }
+        }
+        if got.is_error() {
+            kind.push_str(if got.error_code().as_deref() == Some("WRONGTYPE") { " !wrongtype" } else { " !err" });
+            self.ctx.label(if got.error_code().as_deref() == Some("WRONGTYPE") { "reply:wrongtype" } else { "reply:error" });
+        } else if is_write(&name) {
+            self.writes += 1;
+        }
+        self.kinds.insert(kind);
+        if argv.len() > 1 && !matches!(name.as_str(), "KEYS" | "SCAN") {
+            self.fam_by_key.entry(argv[1].clone()).or_default().insert(fam);
+        }
+    }
+
+    fn apply_resync(&mut self, r: Resync) -> Result<(), String> {
+        match r {
+            Resync::Nothing => {}
+            Resync::Adopt(keys) => {
+                let o = observe(&mut self.sut, self.now as u64, &keys);
+                for k in keys {
+                    self.adopt(&k, o.dump.get(&k))?;
+                }
+            }
+            Resync::DeleteBoth(keys) => {
+                for k in keys {
+                    self.delete_both(&k);
+                }
+            }
+            Resync::ModelStr(k, v) => {
+                let d = self.model.get(&k).and_then(|e| e.deadline);
+                self.model.put(&k, Val::Str(v), d);
+            }
+            Resync::ModelField(k, f, v) => {
+                if let Some(Entry { val: Val::Hash(h), .. }) = self.model.db.get_mut(&k) {
+                    h.insert(f, v);
+                }
+            }
+            Resync::ModelRemove(k) => self.model.remove(&k),
+        }
+        Ok(())
+    }
+
+    fn delete_both(&mut self, k: &[u8]) {
+        let _ = self.sut.exec(&vec![b"DEL".to_vec(), k.to_vec()], self.now as u64);
+        self.model.remove(k);
+    }
+
+    /// Make the model equal to what the implementation shows for one key.
+    fn adopt(&mut self, k: &[u8], kd: Option<&KeyDump>) -> Result<(), String> {
+        let kd = match kd {
+            None => {
+                self.model.remove(k);
+                return Ok(());
+            }
+            Some(kd) => kd,
+        };
+        let items = |r: &Reply| -> Option<Vec<Bytes>> {
+            r.as_array()?.iter().map(|x| x.as_bulk().map(|b| b.to_vec())).collect()
+        };
+        let val = match kd.ty.as_str() {
+            "string" => kd.value.as_bulk().map(|b| Val::Str(b.to_vec())),
+            "list" => items(&kd.value).map(|v| Val::List(v.into_iter().collect())),
+            "set" => items(&kd.value).map(|v| Val::Set(v.into_iter().collect())),
+            "hash" => items(&kd.value).and_then(|v| {
+                if v.len() % 2 != 0 {
+                    return None;
+                }
+                Some(Val::Hash(v.chunks(2).map(|c| (c[0].clone(), c[1].clone())).collect()))
+            }),
+            "zset" => items(&kd.value).and_then(|v| {
+                if v.len() % 2 != 0 {
+                    return None;
+                }
+                let mut z = BTreeMap::new();
+                for c in v.chunks(2) {
+                    z.insert(c[0].clone(), model::parse_score_text(&c[1])?);
+                }
+                Some(Val::ZSet(z))
+            }),
+            _ => None,
+        };
+        let empty = matches!(&kd.value, Reply::Array(a) if a.is_empty()) && kd.ty != "string";
+        match val {
+            Some(v) if !empty && kd.pttl != 0 && kd.pttl >= -1 => {
+                let d = if kd.pttl < 0 { None } else { Some(self.now + kd.pttl) };
+                self.model.put(k, v, d);
+            }
+            _ => self.delete_both(k), // unrepresentable in the model: remove on both sides
+        }
+        Ok(())
+    }
+
+    // ---------------------------------------------------------------- matchers (replies)
+
+    fn match_reply_finding(&self, pre: &Model, argv: &Argv, exp: &Expect, got: &Reply) -> Option<(&'static str, Resync)> {
+        let name = gen::cmd_name(argv);
+        let rule = match exp {
+            Expect::Err { rule, .. } => *rule,
+            _ => "",
+        };
+        let key = argv.get(1).cloned().unwrap_or_default();
+        match name.as_str() {
+            "TTL" => {
+                if let (Expect::Exact(Reply::Int(a)), Reply::Int(b), Some(Entry { deadline: Some(d), .. })) = (exp, got, pre.get(&key)) {
+                    let ms = d - self.now;
+                    if *b == (ms + 999) / 1000 && *b == *a + 1 {
+                        return Some((KF_TTL_ROUND, Resync::Nothing));
+                    }
+                }
+            }
+            "INCR" | "DECR" | "INCRBY" | "DECRBY" if rule == "not-integer" => {
+                let delta = match name.as_str() {
+                    "INCR" => Some(1),
+                    "DECR" => Some(-1),
+                    "INCRBY" => model::string2ll(&argv[2]),
+                    _ => model::string2ll(&argv[2]).and_then(|d| d.checked_neg()),
+                };
+                if let (Some(delta), Some(Entry { val: Val::Str(s), .. }), Reply::Int(g)) = (delta, pre.get(&key), got) {
+                    if model::string2ll(s).is_none() && rust_int(s).and_then(|v| v.checked_add(delta)) == Some(*g) {
+                        return Some((KF_INT_NONCANON, Resync::ModelStr(key, g.to_string().into_bytes())));
+                    }
+                }
+                // the same acceptance, ending in the overflow error instead of the not-an-integer error
+                if let (Some(delta), Some(Entry { val: Val::Str(s), .. })) = (delta, pre.get(&key)) {
+                    if model::string2ll(s).is_none()
+                        && rust_int(s).map_or(false, |v| v.checked_add(delta).is_none())
+                        && got.error_text().as_deref() == Some("ERR increment or decrement would overflow")
+                    {
+                        return Some((KF_INT_NONCANON, Resync::Nothing));
+                    }
+                }
+            }
+            "HINCRBY" if rule == "hash-not-integer" => {
+                if let (Some(d), Some(Entry { val: Val::Hash(h), .. }), Reply::Int(g)) = (model::string2ll(&argv[3]), pre.get(&key), got) {
+                    if let Some(s) = h.get(&argv[2]) {
+                        if model::string2ll(s).is_none() && rust_int(s).and_then(|v| v.checked_add(d)) == Some(*g) {
+                            return Some((KF_INT_NONCANON, Resync::ModelField(key, argv[2].clone(), g.to_string().into_bytes())));
+                        }
+                    }
+                }
+                if let (Some(d), Some(Entry { val: Val::Hash(h), .. })) = (model::string2ll(&argv[3]), pre.get(&key)) {
+                    if let Some(s) = h.get(&argv[2]) {
+                        if model::string2ll(s).is_none()
+                            && rust_int(s).map_or(false, |v| v.checked_add(d).is_none())
+                            && got.error_text().as_deref() == Some("ERR increment or decrement would overflow")
+                        {
+                            return Some((KF_INT_NONCANON, Resync::Nothing));
+                        }
+                    }
+                }
+            }
+            "EXPIRE" | "PEXPIRE" => {
+                if argv.len() > 3 && model::string2ll(&argv[2]).map_or(false, |n| n <= 0) {
+                    if let (Expect::Exact(Reply::Int(0)), Reply::Int(1)) = (exp, got) {
+                        return Some((KF_EXPIRE_FLAGS, Resync::ModelRemove(key)));
+                    }
+                }
+            }
+            "SETRANGE" => {
+                if argv.len() == 4 && argv[3].is_empty() {
+                    if let (Some(off), Some(Entry { val: Val::Str(s), .. }), Expect::Exact(Reply::Int(l)), Reply::Int(g)) =
+                        (model::string2ll(&argv[2]), pre.get(&key), exp, got)
+                    {
+                        if *l == s.len() as i64 && off > *l && *g == off {
+                            let mut padded = s.clone();
+                            padded.resize(off as usize, 0);
+                            return Some((KF_SETRANGE_EMPTY, Resync::ModelStr(key, padded)));
+                        }
+                    }
+                    // same on a missing key: a string of `off` zero bytes is created
+                    if let (Some(off), None, Expect::Exact(Reply::Int(0)), Reply::Int(g)) = (model::string2ll(&argv[2]), pre.get(&key), exp, got) {
+                        if off > 0 && *g == off {
+                            return Some((KF_SETRANGE_EMPTY, Resync::ModelStr(key, vec![0u8; off as usize])));
+                        }
+                    }
+                }
+            }
+            "ZADD" if rule == "zadd-flags-incompatible" => {
+                if matches!(got, Reply::Int(_)) {
+                    return Some((KF_ZADD_FLAGS, Resync::Adopt(vec![key])));
+                }
+            }
+            "GETEX" if rule == "expire-nonpositive" => {
+                // GETEX EXAT|PXAT n <= 0: the key is deleted and its value returned
+                let abs = argv.len() == 4 && (argv[2].eq_ignore_ascii_case(b"EXAT") || argv[2].eq_ignore_ascii_case(b"PXAT"));
+                if let (true, Some(Entry { val: Val::Str(v), .. }), Reply::Bulk(g)) = (abs, pre.get(&key), got) {
+                    if v == g {
+                        return Some((KF_EXPIRE_OVERFLOW, Resync::DeleteBoth(vec![key])));
+                    }
+                }
+            }
+            "SET" | "SETEX" | "PSETEX" | "GETEX" | "EXPIREAT" if rule == "expire-overflow" => {
+                if !got.is_error() {
+                    return Some((KF_EXPIRE_OVERFLOW, Resync::DeleteBoth(vec![key])));
+                }
+            }
+            "GETRANGE" => {
+                if let (Some(st), Some(en), Some(Entry { val: Val::Str(v), .. }), Expect::Exact(Reply::Bulk(e)), Reply::Bulk(g)) =
+                    (model::string2ll(&argv[2]), model::string2ll(&argv[3]), pre.get(&key), exp, got)
+                {
+                    if st < 0 && en < 0 && st > en && e.is_empty() && !v.is_empty() && g[..] == v[..1] {
+                        return Some((KF_GETRANGE_NEG, Resync::Nothing));
+                    }
+                }
+            }
+            "ZRANK" => {
+                // a member whose score is infinite is never found by SkipList::rank
+                if let (Some(Entry { val: Val::ZSet(z), .. }), Expect::Exact(Reply::Int(_)), Reply::Nil) = (pre.get(&key), exp, got) {
+                    if z.get(&argv[2]).map_or(false, |s| s.is_infinite()) {
+                        return Some((KF_ZSET_EPS, Resync::Nothing));
+                    }
+                }
+            }
+            "ZCOUNT" | "ZRANGEBYSCORE" if rule == "nan-bound" => {
+                if !got.is_error() {
+                    return Some((KF_NAN_BOUND, Resync::Nothing));
+                }
+            }
+            _ => {}
+        }
+        None
+    }
+
+    // ---------------------------------------------------------------- matchers (state)
+
+    fn match_state_finding(&self, pre: &Model, argv: &Argv, exp: &Expect, d: &Diff, o: &Observed) -> Option<(&'static str, Resync)> {
+        let name = gen::cmd_name(argv);
+        let kd = o.dump.get(&d.key);
+        match name.as_str() {
+            "GETSET" | "MSET" => {
+                let named = if name == "GETSET" { argv[1] == d.key } else { argv[1..].chunks(2).any(|kv| kv[0] == d.key) };
+                if named && d.kind == DiffKind::Ttl {
+                    if let (Some(Entry { deadline: Some(dl), .. }), Some(Entry { deadline: None, .. }), Some(kd)) =
+                        (pre.get(&d.key), self.model.get(&d.key), kd)
+                    {
+                        if kd.pttl == dl - self.now {
+                            let id = if name == "GETSET" { KF_GETSET_TTL } else { KF_MSET_TTL };
+                            return Some((id, Resync::Adopt(vec![d.key.clone()])));
+                        }
+                    }
+                }
+            }
+            "ZADD" => {
+                let has_xx = argv[2..].iter().take_while(|a| OPTION_WORDS.contains(&String::from_utf8_lossy(a).to_ascii_uppercase().as_str())).any(|a| a.eq_ignore_ascii_case(b"XX"));
+                if argv[1] == d.key && d.kind == DiffKind::Value {
+                    let named: Vec<Bytes> = argv[2..].iter().cloned().collect();
+                    if let Some(r) = self.match_inf_ghost(pre, &d.key, &named, kd) {
+                        return Some(r);
+                    }
+                }
+                if has_xx && argv[1] == d.key && d.kind == DiffKind::Extra && pre.get(&d.key).is_none() {
+                    if let Some(kd) = kd {
+                        if kd.ty == "zset" && kd.value == Reply::Array(vec![]) {
+                            return Some((KF_ZADD_XX_EMPTY, Resync::DeleteBoth(vec![d.key.clone()])));
+                        }
+                    }
+                }
+            }
+            "ZREM" if argv[1] == d.key && d.kind == DiffKind::Value => {
+                if let Some(r) = self.match_inf_ghost(pre, &d.key, &argv[2..].to_vec(), kd) {
+                    return Some(r);
+                }
+            }
+            "RPOPLPUSH" | "LMOVE" => {
+                if matches!(exp, Expect::Err { rule: "lmove-dst-wrongtype", .. }) && argv[1] == d.key {
+                    if let Some(Entry { val: Val::List(l), .. }) = pre.get(&d.key) {
+                        let from_left = name == "LMOVE" && argv[3].eq_ignore_ascii_case(b"LEFT");
+                        let mut rest = l.clone();
+                        if from_left {
+                            rest.pop_front();
+                        } else {
+                            rest.pop_back();
+                        }
+                        let want = Reply::Array(rest.iter().map(|x| Reply::Bulk(x.clone())).collect());
+                        let matches = match kd {
+                            None => rest.is_empty(),
+                            Some(kd) => kd.ty == "list" && kd.value == want,
+                        };
+                        if matches {
+                            return Some((KF_LMOVE_DST, Resync::Adopt(vec![d.key.clone()])));
+                        }
+                    }
+                }
+            }
+            _ => {}
+        }
+        None
+    }
+
+    /// Skip-list entries with an infinite score cannot be removed (`(inf - inf).abs() < EPSILON`
+    /// is false): after ZADD re-scores or ZREM removes such a member, the old (member, +-inf)
+    /// entry is still listed by ZRANGE although the model no longer has it.
+    fn match_inf_ghost(&self, pre: &Model, key: &[u8], named: &[Bytes], kd: Option<&KeyDump>) -> Option<(&'static str, Resync)> {
+        let empty = BTreeMap::new();
+        let z = match pre.get(key) {
+            Some(Entry { val: Val::ZSet(z), .. }) => z,
+            None => &empty,
+            _ => return None,
+        };
+        let flat = kd?.value.as_array()?;
+        let now_z = match self.model.get(key) {
+            Some(Entry { val: Val::ZSet(z), .. }) => Some(z),
+            _ => None,
+        };
+        // infinite scores a named member had before the step or is given by the step itself
+        // (`ZADD k -inf m 0 m`: named = the argv tail, a score token precedes its member)
+        let mut had: Vec<(Bytes, f64)> = Vec::new();
+        for (i, m) in named.iter().enumerate() {
+            if let Some(s) = z.get(m) {
+                had.push((m.clone(), *s));
+            }
+            if i > 0 {
+                if let Some(s) = model::parse_score_text(&named[i - 1]) {
+                    had.push((m.clone(), s));
+                }
+            }
+        }
+        for (m, s) in had {
+            if s.is_infinite() && now_z.and_then(|z| z.get(&m)) != Some(&s) {
+                let text: &[u8] = if s > 0.0 { b"inf" } else { b"-inf" };
+                let ghost = flat.chunks(2).any(|c| c.len() == 2 && c[0].as_bulk() == Some(m.as_slice()) && c[1].as_bulk() == Some(text));
+                if ghost {
+                    return Some((KF_ZSET_EPS, Resync::DeleteBoth(vec![key.to_vec()])));
+                }
+            }
+        }
+        None
+    }
+
+    // ---------------------------------------------------------------- steps
+
+    /// Compare the whole visible keyspace with the model; tolerate listed findings (then verify
+    /// again, strictly).
+    fn check_keyspace(&mut self, pre: &Model, argv: &Argv, exp: &Expect) -> Result<(), String> {
+        for round in 0..2 {
+            let o = observe(&mut self.sut, self.now as u64, &self.model.keys());
+            self.stale = false;
+            self.model.purged.clear();
+            let diffs = compare_keyspace(&self.model, &o);
+            if diffs.is_empty() {
+                return self_consistency(&o).map_err(|e| self.fail(format!("after {}: {}", show_argv(argv), e)));
+            }
+            if round == 1 {
+                return Err(self.fail(format!("after {} (and re-synchronisation): {}", show_argv(argv), diffs[0].text)));
+            }
+            for d in &diffs {
+                match self.match_state_finding(pre, argv, exp, d, &o) {
+                    Some((id, r)) => {
+                        self.gate(id, &format!("after {}: {}", show_argv(argv), d.text))?;
+                        self.apply_resync(r)?;
+                    }
+                    None => {
+                        // the emptiness rule gives the better message for an empty collection
+                        if let Err(e) = self_consistency(&o) {
+                            if d.kind == DiffKind::Extra {
+                                return Err(self.fail(format!("after {}: {}", show_argv(argv), e)));
+                            }
+                        }
+                        return Err(self.fail(format!("after {}: keyspace differs: {}", show_argv(argv), d.text)));
+                    }
+                }
+            }
+        }
+        Ok(())
+    }
+
+    fn step_cmd(&mut self, argv: &Argv) -> Result<(), String> {
+        let got = self.sut.exec(argv, self.now as u64);
+        self.stale = false;
+        self.note(format!("t={} {} -> {}", self.now, show_argv(argv), truncate(&got.show(), 300)));
+        self.after_reply(argv, &got, false, true)
+    }
+
+    /// Judge one reply against the model (which applies the command), then — unless more
+    /// replies of the same atomic batch follow — compare the whole keyspace.
+    fn after_reply(&mut self, argv: &Argv, got: &Reply, fast_stale: bool, check_state: bool) -> Result<(), String> {
+        self.classify(argv, got);
+        let pre = self.model.clone();
+        self.model.advance(self.now);
+        let before_types: BTreeMap<Bytes, &'static str> = self.model.db.iter().map(|(k, e)| (k.clone(), e.val.type_name())).collect();
+        let exp = self.model.apply(argv, got);
+        match compare_reply(&exp, got) {
+            Cmp::Ok => {}
+            Cmp::Abstain => self.ctx.abstain(),
+            Cmp::Mismatch(m) => {
+                let hit = if fast_stale { self.match_fast_stale(&pre, argv, got) } else { self.match_reply_finding(&pre, argv, &exp, got) };
+                match hit {
+                    Some((id, r)) => {
+                        self.gate(id, &format!("{}: {}", show_argv(argv), m))?;
+                        self.apply_resync(r)?;
+                    }
+                    None => return Err(self.fail(format!("{}: {}", show_argv(argv), m))),
+                }
+            }
+        }
+        if let Expect::Unspecified { resync, .. } = &exp {
+            if !resync.is_empty() {
+                self.apply_resync(Resync::Adopt(resync.clone()))?;
+            }
+        }
+        if let Expect::Scan(spec) = &exp {
+            self.scan_walk(spec, Some((argv, got)))?;
+        }
+        if check_state {
+            self.check_keyspace(&pre, argv, &exp)?;
+        }
+        for (k, e) in &self.model.db {
+            let was = before_types.get(k).copied().unwrap_or("none");
+            if was != e.val.type_name() {
+                self.transitions.insert((was.to_string(), e.val.type_name().to_string()));
+            }
+        }
+        for (k, t) in &before_types {
+            if !self.model.db.contains_key(k) {
+                self.transitions.insert((t.to_string(), "none".to_string()));
+            }
+        }
+        Ok(())
+    }
+
+    /// Sharded mode: a fast-path GET answered from a shard whose clock is stale.
+    fn match_fast_stale(&self, _pre: &Model, argv: &Argv, got: &Reply) -> Option<(&'static str, Resync)> {
+        if !self.stale || gen::cmd_name(argv) != "GET" {
+            return None;
+        }
+        match (self.model.purged.get(&argv[1]), got) {
+            (Some(Entry { val: Val::Str(s), .. }), Reply::Bulk(b)) if s == b => Some((KF_FAST_STALE, Resync::Nothing)),
+            (Some(Entry { val, .. }), Reply::Error(_)) if !matches!(val, Val::Str(_)) && got.error_code().as_deref() == Some("WRONGTYPE") => {
+                Some((KF_FAST_STALE, Resync::Nothing))
+            }
+            _ => None,
+        }
+    }
+
+    fn step_fast(&mut self, step: &Step) -> Result<(), String> {
+        let replies = self.sut.fast(step);
+        let model_cmds: Vec<Argv> = match step {
+            Step::FastGet(k) | Step::PooledGet(k) => vec![vec![b"GET".to_vec(), k.clone()]],
+            Step::FastSet(k, v) | Step::PooledSet(k, v) => vec![vec![b"SET".to_vec(), k.clone(), v.clone()]],
+            Step::BatchGet(ks) => ks.iter().map(|k| vec![b"GET".to_vec(), k.clone()]).collect(),
+            Step::BatchSet(kvs) => kvs.iter().map(|(k, v)| vec![b"SET".to_vec(), k.clone(), v.clone()]).collect(),
+            _ => unreachable!(),
+        };
+        let label = match step {
+            Step::FastGet(_) => "fast_get",
+            Step::PooledGet(_) => "pooled_fast_get",
+            Step::FastSet(..) => "fast_set",
+            Step::PooledSet(..) => "pooled_fast_set",
+            Step::BatchGet(_) => "fast_batch_get_pipeline",
+            _ => "fast_batch_set_pipeline",
+        };
+        self.ctx.label(&format!("path:{}", label));
+        if replies.len() != model_cmds.len() {
+            return Err(self.fail(format!("{} returned {} replies for {} inputs", label, replies.len(), model_cmds.len())));
+        }
+        // the shard's clock is refreshed only by generic commands and ticks: remember whether
+        // this fast operation ran on a stale clock (the keyspace dump below refreshes it)
+        // (a batch is one atomic shard message: all its replies come from the same state, so the
+        // keyspace is compared once, after the model has applied the whole batch)
+        let last = model_cmds.len() - 1;
+        for (i, (argv, got)) in model_cmds.iter().zip(replies.iter()).enumerate() {
+            self.note(format!("t={} {}({}) -> {}", self.now, label, show_argv(&argv[1..].to_vec()), truncate(&got.show(), 300)));
+            self.after_reply(argv, got, true, i == last)?;
+        }
+        Ok(())
+    }
+
+    fn step_clock(&mut self, cs: &ClockStep, tick: bool) -> Result<(), String> {
+        let pending = self.model.pending_deadlines();
+        let target = match cs {
+            ClockStep::Zero => self.now,
+            ClockStep::Ms(n) => self.now + *n as i64,
+            ClockStep::Secs(n) => self.now + *n as i64 * 1000,
+            ClockStep::Hours(n) => self.now + *n as i64 * 3_600_000,
+            ClockStep::Aim(w, d) => {
+                if pending.is_empty() {
+                    self.now + 1
+                } else {
+                    self.ctx.label("clock:aimed_at_deadline");
+                    pending[(*w as usize * pending.len()) >> 16].saturating_add(*d as i64)
+                }
+            }
+        };
+        // the harness clock stays far below the i64 range so that "now + ttl" arithmetic of
+        // the model cannot overflow by itself
+        let target = target.clamp(self.now, 1i64 << 40);
+        if pending.iter().any(|d| *d > self.now && *d <= target) {
+            self.crossed = true;
+            self.ctx.label("clock:crossed_live_deadline");
+        }
+        self.now = target;
+        self.model.advance(target);
+        self.note(format!("t={} clock{}", self.now, if tick { " + TTL-manager tick" } else { "" }));
+        if tick {
+            self.ctx.label("clock:tick");
+            self.sut.tick(target as u64);
+            self.stale = false;
+            self.model.purged.clear();
+        } else {
+            self.sut.set_clock(target as u64);
+            if self.sut.mode() == Mode::Shard {
+                // passive: nothing reaches the shard, so nothing is observed here either
+                self.stale = true;
+                return Ok(());
+            }
+        }
+        let none: Argv = vec![b"(clock step)".to_vec()];
+        self.check_keyspace(&self.model.clone(), &none, &Expect::Exact(Reply::Nil))
+    }
+
+    /// Full cursor walk. `first` = the generated command and its reply (cursor 0 page).
+    fn scan_walk(&mut self, spec: &ScanSpec, first: Option<(&Argv, &Reply)>) -> Result<(), String> {
+        let universe = match self.model.scan_universe(spec) {
+            Err(exp) => {
+                // other type: the first page must be the WRONGTYPE error
+                return match first {
+                    Some((argv, got)) => match compare_reply(&exp, got) {
+                        Cmp::Mismatch(m) => Err(self.fail(format!("{}: {}", show_argv(argv), m))),
+                        _ => Ok(()),
+                    },
+                    None => Ok(()),
+                };
+            }
+            Ok(None) => {
+                self.ctx.abstain();
+                return Ok(());
+            }
+            Ok(Some(u)) => u,
+        };
+        self.ctx.label("scan:full_walk");
+        let build = |cursor: &[u8]| -> Argv {
+            let mut a: Argv = match spec.kind {
+                ScanKind::Scan => vec![b"SCAN".to_vec()],
+                ScanKind::HScan => vec![b"HSCAN".to_vec(), spec.key.clone()],
+                ScanKind::ZScan => vec![b"ZSCAN".to_vec(), spec.key.clone()],
+            };
+            a.push(cursor.to_vec());
+            if let Some(p) = &spec.pattern {
+                a.push(b"MATCH".to_vec());
+                a.push(p.clone());
+            }
+            if let Some(c) = &spec.count {
+                a.push(b"COUNT".to_vec());
+                a.push(c.clone());
+            }
+            a
+        };
+        let paired = !matches!(spec.kind, ScanKind::Scan);
+        let mut seen: Vec<(Bytes, Option<Bytes>)> = Vec::new();
+        let mut page = match first {
+            Some((_, got)) => got.clone(),
+            None => self.sut.exec(&build(b"0"), self.now as u64),
+        };
+        let mut pages = 0usize;
+        let mut first_page_items = 0usize;
+        loop {
+            pages += 1;
+            let (cursor, items) = match &page {
+                Reply::Array(a) if a.len() == 2 => match (&a[0], &a[1]) {
+                    (Reply::Bulk(c), Reply::Array(items)) => (c.clone(), items.clone()),
+                    _ => return Err(self.fail(format!("{}: malformed page {}", show_argv(&build(b"<cursor>")), page.show()))),
+                },
+                _ => return Err(self.fail(format!("{}: expected [cursor, [items]], got {}", show_argv(&build(b"<cursor>")), page.show()))),
+            };
+            if paired && items.len() % 2 != 0 {
+                return Err(self.fail(format!("{}: odd number of elements in a page of pairs", show_argv(&build(b"<cursor>")))));
+            }
+            if paired {
+                for c in items.chunks(2) {
+                    match (&c[0], &c[1]) {
+                        (Reply::Bulk(f), Reply::Bulk(v)) => seen.push((f.clone(), Some(v.clone()))),
+                        _ => return Err(self.fail("scan page element is not a bulk string".into())),
+                    }
+                }
+            } else {
+                for it in &items {
+                    match it {
+                        Reply::Bulk(k) => seen.push((k.clone(), None)),
+                        _ => return Err(self.fail("scan page element is not a bulk string".into())),
+                    }
+                }
+            }
+            if pages == 1 {
+                first_page_items = seen.len();
+            }
+            if cursor == b"0" {
+                break;
+            }
+            if pages > 2000 {
+                return Err(self.fail(format!("{}: cursor walk did not terminate within 2000 pages", show_argv(&build(b"<cursor>")))));
+            }
+            page = self.sut.exec(&build(&cursor), self.now as u64);
+        }
+        // nothing that does not exist (and values / scores right)
+        let cmd = show_argv(&build(b"0"));
+        for (name, extra) in &seen {
+            match universe.iter().find(|(n, _)| n == name) {
+                None => return Err(self.fail(format!("{}: full walk returned \"{}\" which does not exist / does not match", cmd, vcore::show(name)))),
+                Some((_, ScanItem::Key)) => {}
+                Some((_, ScanItem::Value(v))) => {
+                    if extra.as_ref() != Some(v) {
+                        let got = extra.clone().unwrap_or_default();
+                        let lossy = String::from_utf8_lossy(v).into_owned().into_bytes();
+                        let what = format!("{}: field \"{}\" has value \"{}\" but the walk returned \"{}\"", cmd, vcore::show(name), vcore::show(v), vcore::show(&got));
+                        if std::str::from_utf8(v).is_err() && got == lossy {
+                            self.gate(KF_HSCAN_LOSSY, &what)?;
+                        } else {
+                            return Err(self.fail(what));
+                        }
+                    }
+                }
+                Some((_, ScanItem::Score(s))) => {
+                    if !extra.as_ref().map_or(false, |t| model::score_text_ok(t, *s)) {
+                        return Err(self.fail(format!(
+                            "{}: member \"{}\" has score {} but the walk returned \"{}\"",
+                            cmd,
+                            vcore::show(name),
+                            s,
+                            vcore::show(&extra.clone().unwrap_or_default())
+                        )));
+                    }
+                }
+            }
+        }
+        // everything at least once
+        let missing: Vec<String> = universe.iter().filter(|(n, _)| !seen.iter().any(|(s, _)| s == n)).map(|(n, _)| vcore::show(n)).collect();
+        if !missing.is_empty() {
+            let what = format!("{}: full walk ({} pages) never returned {:?}", cmd, pages, missing);
+            let count = spec.count.as_ref().and_then(|c| model::string2ll(c)).unwrap_or(10) as usize;
+            if self.sut.mode() == Mode::Shard && matches!(spec.kind, ScanKind::Scan) && pages == 1 && first_page_items == count && universe.len() > count {
+                self.gate(KF_SHARD_SCAN, &what)?;
+            } else {
+                return Err(self.fail(what));
+            }
+        }
+        Ok(())
+    }
+
+    /// End of case: deadline rule for every pending deadline, then a full SCAN walk.
+    fn finish(&mut self) -> Result<(), String> {
+        for _ in 0..8 {
+            let pending = self.model.pending_deadlines();
+            let d = match pending.iter().find(|d| **d > self.now) {
+                Some(d) => *d,
+                None => break,
+            };
+            if d >= (1i64 << 40) {
+                break;
+            }
+            let holders: Vec<Bytes> = self.model.db.iter().filter(|(_, e)| e.deadline == Some(d)).map(|(k, _)| k.clone()).collect();
+            let none: Argv = vec![b"(deadline sweep)".to_vec()];
+            if d - 1 > self.now {
+                self.now = d - 1;
+                self.model.advance(self.now);
+                self.sut.set_clock(self.now as u64);
+                self.note(format!("t={} deadline sweep: deadline-1", self.now));
+                self.check_keyspace(&self.model.clone(), &none, &Expect::Exact(Reply::Nil))?;
+            }
+            for k in &holders {
+                if !self.model.db.contains_key(k) {
+                    return Err(self.fail("model error: key vanished before its deadline".into()));
+                }
+            }
+            self.now = d;
+            self.model.advance(d);
+            self.sut.set_clock(d as u64);
+            self.crossed = true;
+            self.note(format!("t={} deadline sweep: deadline", self.now));
+            self.check_keyspace(&self.model.clone(), &none, &Expect::Exact(Reply::Nil))?;
+            self.ctx.label("deadline_rule:swept");
+        }
+        if !self.model.db.is_empty() {
+            // (sharded mode: default COUNT, so that the listed SCAN finding does not end every case)
+            let count = if self.sut.mode() == Mode::Exec { Some(b"3".to_vec()) } else { None };
+            let spec = ScanSpec { kind: ScanKind::Scan, key: vec![], pattern: None, count };
+            self.scan_walk(&spec, None)?;
+        }
+        Ok(())
+    }
+
+    fn conclude(&mut self) {
+        let two_fam = self.fam_by_key.values().any(|f| f.len() >= 2);
+        if two_fam {
+            self.ctx.label("nt:key_touched_by_two_families");
+        }
+        if self.writes >= 1 && (two_fam || self.crossed) {
+            let fp = (self.kinds.iter().cloned().collect::<Vec<_>>(), self.transitions.iter().cloned().collect::<Vec<_>>(), self.crossed);
+            self.ctx.nontrivial(&fp);
+        }
+    }
+}
+
+fn truncate(s: &str, n: usize) -> String {
+    if s.len() <= n {
+        s.to_string()
+    } else {
+        let mut cut = n;
+        while !s.is_char_boundary(cut) {
+            cut -= 1;
+        }
+        format!("{}… ({} bytes)", &s[..cut], s.len())
+    }
+}
+
+fn run_case<S: Sut>(sut: S, case: &SeqCase, ctx: &mut CaseCtx<'_>) -> Result<(), String> {
+    let mode = sut.mode();
+    ctx.label(if mode == Mode::Exec { "mode:executor" } else { "mode:sharded" });
+    if case.steps.len() > 60 {
+        ctx.label("len:61..200");
+    }
+    let mut ck = Checker::new(sut, case.t0 as i64, ctx);
+    for step in &case.steps {
+        match step {
+            Step::Cmd(argv) => {
+                if argv.is_empty() {
+                    continue;
+                }
+                ck.step_cmd(argv)?
+            }
+            Step::Clock(cs) => ck.step_clock(cs, false)?,
+            Step::Tick(cs) => ck.step_clock(cs, true)?,
+            other => {
+                if mode == Mode::Shard {
+                    ck.step_fast(other)?
+                }
+            }
+        }
+    }
+    ck.finish()?;
+    ck.conclude();
+    Ok(())
+}
+
+fn run_exec_case(case: &SeqCase, ctx: &mut CaseCtx<'_>) -> Result<(), String> {
+    run_case(ExecSut { ex: CommandExecutor::new() }, case, ctx)
+}
+
+fn run_shard_case(case: &SeqCase, ctx: &mut CaseCtx<'_>) -> Result<(), String> {
+    run_case(ShardSut::new(case.t0 as u64), case, ctx)
+}
+
+// =====================================================================================
+// probes
+// =====================================================================================
+
+fn c(parts: &[&str]) -> Step {
+    Step::Cmd(parts.iter().map(|s| s.as_bytes().to_vec()).collect())
+}
+fn cb(parts: &[&[u8]]) -> Step {
+    Step::Cmd(parts.iter().map(|s| s.to_vec()).collect())
+}
+
+fn probe_case(s: &Session, id: &'static str, shard: bool, steps: Vec<Step>) {
+    let case = SeqCase { t0: 1000, steps };
+    let shown: Vec<String> = case
+        .steps
+        .iter()
+        .map(|st| match st {
+            Step::Cmd(a) => show_argv(a),
+            other => format!("{:?}", other),
+        })
+        .collect();
+    s.probe(id, json!({"mode": if shard { "sharded" } else { "executor" }, "t0": 1000, "steps": shown}), || {
+        let r = s.strict_eval(|ctx| if shard { run_shard_case(&case, ctx) } else { run_exec_case(&case, ctx) });
+        match r {
+            Err(m) if m.contains(&format!("[{}]", id)) => Some(first_line(&m)),
+            Err(m) => Some(format!("(reproducer fails differently than recorded) {}", first_line(&m))),
+            Ok(()) => None,
+        }
+    });
+}
+
+fn first_line(m: &str) -> String {
+    m.lines().next().unwrap_or("").to_string()
+}
+
+fn probes(s: &Session) {
+    probe_case(s, KF_GETSET_TTL, false, vec![c(&["SET", "k0", "a", "PX", "5000"]), c(&["GETSET", "k0", "b"])]);
+    probe_case(s, KF_MSET_TTL, false, vec![c(&["SET", "k0", "a", "PX", "5000"]), c(&["MSET", "k0", "b"])]);
+    probe_case(s, KF_TTL_ROUND, false, vec![c(&["SET", "k0", "a", "PX", "1400"]), c(&["TTL", "k0"])]);
+    probe_case(s, KF_ZADD_XX_EMPTY, false, vec![c(&["ZADD", "k0", "XX", "1", "a"])]);
+    probe_case(s, KF_INT_NONCANON, false, vec![c(&["SET", "k0", "+5"]), c(&["INCR", "k0"])]);
+    probe_case(s, KF_EXPIRE_FLAGS, false, vec![c(&["SET", "k0", "a"]), c(&["EXPIRE", "k0", "-1", "XX"])]);
+    probe_case(s, KF_SETRANGE_EMPTY, false, vec![c(&["SET", "k0", "ab"]), c(&["SETRANGE", "k0", "5", ""])]);
+    probe_case(s, KF_ZADD_FLAGS, false, vec![c(&["ZADD", "k0", "NX", "XX", "1", "a"])]);
+    probe_case(s, KF_EXPIRE_OVERFLOW, false, vec![c(&["SET", "k0", "a", "PX", "9223372036854775807"])]);
+    probe_case(
+        s,
+        KF_LMOVE_DST,
+        false,
+        vec![c(&["RPUSH", "k0", "a", "b"]), c(&["SET", "k1", "x"]), c(&["RPOPLPUSH", "k0", "k1"])],
+    );
+    probe_case(
+        s,
+        KF_HSCAN_LOSSY,
+        false,
+        vec![cb(&[b"HSET", b"k0", b"f", &[0x00, 0xff, 0x80]]), c(&["HSCAN", "k0", "0"])],
+    );
+    probe_case(
+        s,
+        KF_NAN_BOUND,
+        false,
+        vec![c(&["ZADD", "k0", "1", "a"]), c(&["ZCOUNT", "k0", "nan", "5"])],
+    );
+    probe_case(s, KF_GETRANGE_NEG, false, vec![c(&["SET", "k0", "abc"]), c(&["GETRANGE", "k0", "-3", "-4"])]);
+    probe_case(
+        s,
+        KF_SHARD_SCAN,
+        true,
+        vec![c(&["MSET", "k0", "a", "k1", "b", "k2", "c"]), c(&["SCAN", "0", "COUNT", "1"])],
+    );
+    probe_case(
+        s,
+        KF_FAST_STALE,
+        true,
+        vec![c(&["SET", "k0", "a", "PX", "100"]), Step::Clock(ClockStep::Ms(200)), Step::FastGet(b"k0".to_vec())],
+    );
+
+    // lossy UTF-8 names: two distinct binary keys / members collide (class excluded from the
+    // main search while the finding is open)
+    s.probe(
+        KF_LOSSY_NAMES,
+        json!({"steps": ["SET \\xff a", "SET \\xfe b", "GET \\xff", "SADD s \\x80 \\x81", "SCARD s"]}),
+        || {
+            let mut sut = ExecSut { ex: CommandExecutor::new() };
+            let mut x = |parts: &[&[u8]]| sut.exec(&parts.iter().map(|p| p.to_vec()).collect(), 1000);
+            x(&[b"SET", &[0xff], b"a"]);
+            x(&[b"SET", &[0xfe], b"b"]);
+            let g = x(&[b"GET", &[0xff]]);
+            x(&[b"SADD", b"s", &[0x80], &[0x81]]);
+            let card = x(&[b"SCARD", b"s"]);
+            let keys = x(&[b"KEYS", b"*"]);
+            if g != Reply::bulk("a") || card != Reply::Int(2) {
+                Some(format!(
+                    "SET \\xff a; SET \\xfe b; GET \\xff = {} (Redis: \"a\"); SADD s \\x80 \\x81; SCARD s = {} (Redis: 2); KEYS * = {}",
+                    g.show(),
+                    card.show(),
+                    keys.sorted().show()
+                ))
+            } else {
+                None
+            }
+        },
+    );
+
+    // scores closer than f64::EPSILON are treated as equal (outside the generated score pool)
+    s.probe(
+        KF_ZSET_EPS,
+        json!({"steps": ["ZADD k0 0 a", "ZADD k0 CH 1e-17 a", "ZCOUNT k0 (0 +inf", "ZADD k1 -inf a", "ZADD k1 0 a", "ZRANGE k1 0 -1 WITHSCORES", "ZADD k2 inf a", "ZRANK k2 a"]}),
+        || {
+            let mut sut = ExecSut { ex: CommandExecutor::new() };
+            let mut x = |parts: &[&str]| sut.exec(&parts.iter().map(|p| p.as_bytes().to_vec()).collect(), 1000);
+            x(&["ZADD", "k0", "0", "a"]);
+            let ch = x(&["ZADD", "k0", "CH", "1e-17", "a"]);
+            let cnt = x(&["ZCOUNT", "k0", "(0", "+inf"]);
+            x(&["ZADD", "k1", "-inf", "a"]);
+            x(&["ZADD", "k1", "0", "a"]);
+            let range = x(&["ZRANGE", "k1", "0", "-1", "WITHSCORES"]);
+            x(&["ZADD", "k2", "inf", "a"]);
+            let rank = x(&["ZRANK", "k2", "a"]);
+            if ch != Reply::Int(1) || cnt != Reply::Int(1) || range != Reply::Array(vec![Reply::bulk("a"), Reply::bulk("0")]) || rank != Reply::Int(0) {
+                Some(format!(
+                    "ZADD k0 0 a; ZADD k0 CH 1e-17 a = {} (Redis: 1, the score changed); ZCOUNT k0 (0 +inf = {} (Redis: 1); ZADD k1 -inf a; ZADD k1 0 a; ZRANGE k1 0 -1 WITHSCORES = {} (Redis: [a, 0]); ZADD k2 inf a; ZRANK k2 a = {} (Redis: 0)",
+                    ch.show(),
+                    cnt.show(),
+                    range.show(),
+                    rank.show()
+                ))
+            } else {
+                None
+            }
+        },
+    );
+}
+
+// =====================================================================================
+// main
+// =====================================================================================
+
+fn main() {
+    let args = vcore::parse_args();
+    let s = Session::new(
+        "C01",
+        Level::Exploration,
+        "cases: sequences of 1..60 (thorough: up to 200) steps; a step is one syntactically valid data command from the shared \
+         argv grammar (vcore::gen::data_command: ~75 commands, adversarial argument pools, all option combinations, key pool 4 or 10) \
+         or a clock step (0, 1-2 ms, up to 3 s, aimed at a pending deadline -1/0/+1, seconds, hours; passive or as a TTL-manager tick); \
+         sharded mode adds fast_get/fast_set/pooled_*/fast_batch_*_pipeline. After every step the reply and the whole visible keyspace \
+         are compared with an independent reference model. non-trivial = the sequence has >= 1 successful write AND (some key is named \
+         by commands of two different families OR a clock step crosses a live deadline); distinct by the set of (command, option words, \
+         error class) kinds, the set of type transitions and the crossing flag",
+        &args,
+    );
+    s.assume("the reference model (props/c01/src/model.rs) states Redis 7 semantics as documented in the command reference; where Redis is version dependent or undocumented the model abstains (counted as 'abstained') and adopts the implementation's answer");
+    s.assume("error replies are compared by code word; exact text only for WRONGTYPE, 'no such key', 'index out of range', 'value is not an integer or out of range', 'increment or decrement would overflow', 'hash value is not an integer', 'value is not a valid float', 'min or max is not a float'");
+    s.assume("float text is asserted exactly only for |v| <= 2^30 with v*16 integral; elsewhere numeric equality or abstention");
+    s.assume("harness epoch base is 0: EXAT/PXAT/EXPIREAT/PEXPIRETIME are harness milliseconds; the clock starts at 1..2000 ms and never exceeds 2^40");
+    s.assume("visible keyspace = KEYS * united with the model's keys, each read with TYPE, GET/LRANGE/SMEMBERS/HGETALL/ZRANGE WITHSCORES, PTTL, EXISTS, plus DBSIZE (vcore::dump)");
+
+    probes(&s);
+
+    let binary = !s.findings.is_open(KF_LOSSY_NAMES);
+    s.note("binary_names_in_main_search", json!(binary));
+    let thorough = s.thorough();
+    let max_len = if thorough { 200 } else { 60 };
+
+    s.describe_check(
+        "exec_seq",
+        "CommandExecutor driven as ShardActor does (set_time(t); execute(parse_zc(argv))), clock ticks partly as evict_expired_direct(t); reply + full keyspace after every step; deadline sweep and full SCAN walk at the end",
+    );
+    s.run_cases(
+        "exec_seq",
+        s.scale(9_000, 400_000),
+        || seq_case(exec_step, binary, max_len, thorough),
+        |case, ctx| run_exec_case(case, ctx),
+    );
+
+    s.describe_check(
+        "shard_seq",
+        "1-shard ShardedActorState<VerifTime>: execute(cmd) plus fast_get/fast_set/pooled_fast_get/pooled_fast_set/fast_batch_get_pipeline/fast_batch_set_pipeline as spellings of GET/SET, evict_expired_all_shards as the tick; same oracle",
+    );
+    s.run_cases(
+        "shard_seq",
+        s.scale(3_000, 100_000),
+        || seq_case(shard_step, binary, max_len, thorough),
+        |case, ctx| run_shard_case(case, ctx),
+    );
+
+    s.finish();
+}
